@@ -54,7 +54,7 @@ Fixpoint pairs_hex (s : str) : res (list Z) :=
 
 Definition hex_to_rgb_or_rgba (color : str) (alpha_float : bool) : res (list Z) :=
   match color with
-  | [] => Err IndexErr                                   (* color[0] on an empty string *)
+  | [] => Err ValueError                                 (* empty: neither 6 nor 8 hex digits *)
   | c0 :: rest =>
       let color := if c0 =? 35 then rest else color in
       let color := if (2 <? lenZ color) && (lenZ color <? 5) then flat_map (fun c => [c; c]) color else color in
